@@ -1012,12 +1012,18 @@ impl<'a> Gen<'a> {
                 // images with 0 components (placeholder only) cannot be written (empty compound
                 // after removing the placeholder is still printed as `(/, _)`), keep >= 1
                 let n = rng.range(1, self.max_arity);
-                let kids: Vec<TD> = (0..n).map(|_| self.term(rng, d, true)).collect();
+                let mut kids: Vec<TD> = (0..n).map(|_| self.term(rng, d, true)).collect();
                 let idx = match rng.below(4) {
                     0 => 0,
                     1 => n,
                     _ => rng.below(n + 1),
                 };
+                // a bare placeholder may be a component *after* the image's own placeholder (it is
+                // then written as a second `_` and read back as a component, unambiguously)
+                if self.placeholders && idx < n && rng.chance(1, 8) {
+                    let pos = rng.range(idx, n - 1);
+                    kids[pos] = TD::placeholder();
+                }
                 TD::image(k, idx, kids)
             }
             _ => unreachable!(),
@@ -1190,6 +1196,20 @@ pub fn base_atoms(names: &[&str]) -> Vec<TD> {
         }
     }
     v
+}
+
+/// structural well-formedness of a description (what the generators guarantee and the shrinker must
+/// keep): arities respected, and no bare placeholder among an image's components *before* its own
+/// placeholder index (that spelling would be read back with another index)
+pub fn td_wellformed(t: &TD) -> bool {
+    let ok_here = match t.k.shape() {
+        Shape::Unary => t.kids.len() == 1,
+        Shape::BinOrd | Shape::BinSym => t.kids.len() == 2,
+        Shape::VecN | Shape::SetN => !t.kids.is_empty(),
+        Shape::Image => !t.kids.is_empty() && t.num <= t.kids.len() && !t.kids.iter().take(t.num).any(|k| k.k == Kind::Placeholder),
+        _ => t.kids.is_empty(),
+    };
+    ok_here && t.kids.iter().all(td_wellformed)
 }
 
 /// does the term contain an unordered compound with >= 2 distinct members nested inside another
